@@ -164,7 +164,7 @@ pub fn random_cfg(rng: &mut StdRng, profile: &str, ops: usize, kf: &[String]) ->
   };
   if timed {
     match rng.random_range(0..4) {
-      0 => c.ttl = pick(rng, &[10, 20, 30, 50, 15, 25]),
+      0 => c.ttl = pick(rng, &[10, 20, 30, 50, 15, 25, 12, 23, 44]),
       1 => c.tti = pick(rng, &[10, 20, 40, 15]),
       2 => {
         c.ttl = pick(rng, &[20, 30, 50, 80]);
@@ -227,7 +227,7 @@ fn pair(v: &Option<Arc<Val>>) -> Value {
 }
 
 impl Sim {
-  pub fn new(cfg: Cfg, seed: u64, out: Out) -> Sim {
+  pub fn new(cfg: Cfg, seed: u64, hid: usize, out: Out) -> Sim {
     clock_set_ms(T0);
     let sh = Shared {
       lis: Arc::new(Recorder::default()),
@@ -252,7 +252,7 @@ impl Sim {
     let c = &s.cfg;
     s.push(json!({"k":"new","kf":c.kf,"profile":c.profile,"keys":c.keys,"shards":c.shards,"policy":c.policy,"cap":c.cap,
       "ttl":c.ttl,"tti":c.tti,"grace":c.grace,"tick":c.tick,"wheel":c.wheel,"loader":c.loader,"mchance":c.mchance,
-      "moi":c.moi,"paced":c.paced,"t":T0,"seed":seed as u32}));
+      "moi":c.moi,"paced":c.paced,"t":T0,"seed":(seed % 1_000_000_000) as u32,"hid":hid}));
     s
   }
 
@@ -417,7 +417,7 @@ impl Sim {
   fn insert(&mut self) {
     let (k, w, c, a) = (self.key(), self.wid(), self.cost(), self.asyn() && !self.cfg.mchance);
     let with_ttl = self.rng.random_bool(if self.cfg.profile == "ttl" { 0.35 } else { 0.15 });
-    let ttl = if with_ttl { [5u64, 10, 25, 60][self.rng.random_range(0..4)] } else { 0 };
+    let ttl = if with_ttl { [5u64, 10, 25, 60, 14, 33][self.rng.random_range(0..6)] } else { 0 };
     let v = Val { wid: w, n: 0 };
     match (a, with_ttl) {
       (false, false) => self.cache.insert(k, v, c),
@@ -581,19 +581,18 @@ impl Sim {
 
   fn fetch_with(&mut self) {
     let (k, a) = (self.key(), self.asyn());
+    self.fetch_with_key(k, a)
+  }
+
+  fn fetch_with_key(&mut self, k: u32, a: bool) {
     self.sh.loads.lock().clear();
     let r = if a { block_on(self.ac.fetch_with(&k)) } else { self.cache.fetch_with(&k) };
     let res = json!([r.wid, r.n]);
     drop(r);
-    // a stale hit starts a background refresh: wait (bounded) until its result is visible
-    let t_end = Instant::now() + Duration::from_secs(3);
+    // a stale hit starts a background refresh: wait (bounded) until no load is in flight
+    let t_end = Instant::now() + Duration::from_secs(5);
     let mut seen = true;
-    loop {
-      let loads = self.sh.loads.lock().clone();
-      let pending: Vec<_> = loads.iter().filter(|(lk, lw, _)| !matches!(self.cache.peek(lk), Some(v) if v.wid == *lw)).collect();
-      if pending.is_empty() {
-        break;
-      }
+    while self.cache.verif_pending_loads() > 0 {
       if Instant::now() > t_end {
         seen = false;
         break;
@@ -837,6 +836,129 @@ impl Sim {
     }
     if !self.aborted {
       self.quiet();
+    }
+    if !self.aborted {
+      self.finish(json!({"k":"end"}), true);
+    }
+  }
+}
+
+// ---- scripted histories (reproducers of known findings, replay of minimal cases) -------------
+
+pub fn cfg_from_json(j: &Value, kf: &[String]) -> Cfg {
+  let u = |k: &str, d: u64| j.get(k).and_then(|v| v.as_u64()).unwrap_or(d);
+  let b = |k: &str| j.get(k).and_then(|v| v.as_bool()).unwrap_or(false);
+  Cfg {
+    profile: "script".into(),
+    keys: u("keys", 4) as u32,
+    shards: u("shards", 1) as usize,
+    policy: j.get("policy").and_then(|v| v.as_str()).unwrap_or("default").to_string(),
+    cap: u("cap", 0),
+    ttl: u("ttl", 0),
+    tti: u("tti", 0),
+    grace: u("grace", 0),
+    tick: u("tick", 10),
+    wheel: u("wheel", 60) as usize,
+    loader: u("loader", 0) as u8,
+    mchance: b("mchance"),
+    moi: b("moi"),
+    paced: b("paced"),
+    hseed: u("hseed", 7),
+    costs: j.get("costs").and_then(|v| v.as_array()).map(|a| a.iter().filter_map(|x| x.as_u64()).collect()).unwrap_or(vec![1]),
+    ops: 0,
+    kf: kf.to_vec(),
+  }
+}
+
+impl Sim {
+  /// Steps are arrays: ["insert",k,cost] ["insert_ttl",k,cost,ttl] ["remove",k] ["clear"] ["get",k] ["fetch",k] ["peek",k]
+  /// ["entry",k,cost] ["compute",k] ["fetch_with",k] ["adv",dt] ["maint"] ["quiet"] ["iter"] ["snap"] ["restore"] ["burst",n]
+  pub fn run_script(&mut self, steps: &[Value]) {
+    for st in steps {
+      if self.aborted {
+        return;
+      }
+      let a = st.as_array().expect("step");
+      let op = a[0].as_str().expect("op");
+      let arg = |i: usize| a.get(i).and_then(|v| v.as_u64()).unwrap_or(0);
+      match op {
+        "insert" | "insert_ttl" => {
+          let (k, c, ttl, w) = (arg(1) as u32, arg(2), arg(3), self.wid());
+          let v = Val { wid: w, n: 0 };
+          if op == "insert" {
+            self.cache.insert(k, v, c)
+          } else {
+            self.cache.insert_with_ttl(k, v, c, Duration::from_millis(ttl))
+          }
+          self.after_write(ttl);
+          self.finish(json!({"k":"ins","api": if op == "insert" {"insert"} else {"insert_with_ttl"},"h":"s","key":k,"wid":w,"cost":c,"ttl":ttl}), true);
+        }
+        "remove" => {
+          let k = arg(1) as u32;
+          let r = self.cache.remove(&k);
+          let rec = json!({"k":"rem","api":"remove","h":"s","key":k,"hit":r.is_some(),"res":pair(&r)});
+          drop(r);
+          self.finish(rec, true);
+        }
+        "clear" => {
+          self.cache.clear();
+          self.finish(json!({"k":"clear","h":"s"}), true);
+        }
+        "get" | "fetch" | "peek" => {
+          let k = arg(1) as u32;
+          let res = match op {
+            "get" => self.cache.get(&k, |v| json!([v.wid, v.n])).unwrap_or(json!([0, 0])),
+            "fetch" => pair(&self.cache.fetch(&k)),
+            _ => pair(&self.cache.peek(&k)),
+          };
+          self.finish(json!({"k":"rd","api":op,"h":"s","key":k,"res":res}), true);
+        }
+        "entry" => {
+          let (k, c, w) = (arg(1) as u32, arg(2), self.wid());
+          let r = self.cache.entry(k).or_insert(Val { wid: w, n: 0 }, c);
+          let res = json!([r.wid, r.n]);
+          drop(r);
+          self.after_write(0);
+          self.finish(json!({"k":"ent","api":"or_insert","h":"s","key":k,"wid":w,"cost":c,"res":res,"called":false,"lazy":false}), true);
+        }
+        "compute" => {
+          let k = arg(1) as u32;
+          let r = self.cache.try_compute_val(&k, |v: &mut Val| {
+            v.n += 1;
+            (v.wid, v.n)
+          });
+          let (res, val) = match r {
+            ComputeResult::Ok((w, n)) => ("ok", json!([w, n])),
+            ComputeResult::Fail => ("fail", json!([0, 0])),
+            ComputeResult::NotFound => ("nf", json!([0, 0])),
+          };
+          self.finish(json!({"k":"comp","api":"try_compute_val","h":"s","key":k,"res":res,"val":val,"hasval":true}), true);
+        }
+        "fetch_with" => self.fetch_with_key(arg(1) as u32, false),
+        "adv" => self.advance(arg(1)),
+        "maint" => {
+          self.cache.run_maintenance();
+          self.finish(json!({"k":"maint","h":"s"}), true);
+        }
+        "quiet" => self.quiet(),
+        "iter" => {
+          let t0 = clock_now_ms();
+          let items: Vec<Value> = self.cache.iter().map(|(k, v)| json!([k, v.wid, v.n])).collect();
+          self.finish(json!({"k":"it","api":"iter","bs":0,"t0":t0,"refresh":false,"items":items}), true);
+        }
+        "snap" => self.snapshot(),
+        "restore" => self.restore(),
+        "burst" => {
+          let n = arg(1) as usize;
+          let items: Vec<(u32, u32, u64)> = (0..n).map(|i| (1 + i as u32, self.wid(), 1)).collect();
+          for (k, w, c) in &items {
+            self.cache.insert(*k, Val { wid: *w, n: 0 }, *c);
+          }
+          self.writes_since_quiet += n;
+          self.finish(json!({"k":"mins","h":"s","items":items.iter().map(|(k,w,c)| json!([k,w,c])).collect::<Vec<_>>()}), true);
+        }
+        _ => panic!("unknown script op {op}"),
+      }
     }
     if !self.aborted {
       self.finish(json!({"k":"end"}), true);
